@@ -392,6 +392,12 @@ inline IluOpts gen_ilu_opts(Choice &c)
     return o;
 }
 
+// Known finding F-ILU-WORK2: a secondary dropping rule without DROP_INTERP overruns an n-entry scratch array; interpolate while it is open.
+inline void route_ilu(IluOpts &io, Ctx &cx)
+{
+    if ((io.droprule & DROP_SECONDARY) && !(io.droprule & DROP_INTERP) && cx.is_known("F-ILU-WORK2")) { cx.exclude("F-ILU-WORK2"); io.droprule |= DROP_INTERP; }
+}
+
 inline std::string ilu_str(const IluOpts &o)
 {
     return fmt("DropRule=0x%x DropTol=%g FillFactor=%g FillTol=%g Norm=%d MILU=%d RowPerm=%s", o.droprule, o.droptol, o.fillfactor, o.filltol, (int)o.norm, (int)o.milu, o.rowperm == LargeDiag_MC64 ? "MC64" : "NO");
